@@ -225,15 +225,132 @@ theorem reopen_eq_validators_records (P : Prim) (ops : List Op) (del : Bool)
 (2^64 bytes = 16 EiB per stored value) and holds of every state a machine can hold -/
 example : ∃ P : Prim, ∀ b, P.H b ≠ [] := ⟨⟨fun _ => [0], fun _ => []⟩, fun _ => by simp⟩
 
-/-! ## 6. a copy is equal to and independent of the original (value semantics) -/
+/-! ## 6. a copy is equal to and independent of the original — false of the code that exists (F-C10d) -/
 
-/-- On the model `Copy` is the identity and states are values: whatever is done to the original afterwards, the copy
-shows and flushes to what the original showed and would have flushed to at the copy point, and vice versa.  (That the
-real `Copy` has value semantics is an aliasing property: observed on the real objects by the harness — this is where
-the three defects F-C10a/b/c were found.) -/
-theorem copy_equal_independent (P : Prim) (s : St) (opsOrig opsCopy : List Op) (del : Bool) :
-    obs P (copy s) = obs P s ∧ roots P (iroot P del (copy s)) = roots P (iroot P del s) ∧
-    (run P s opsOrig, run P (copy s) opsCopy) = (run P s opsOrig, run P s opsCopy) :=
-  ⟨rfl, rfl, rfl⟩
+/-- the clause as the property states it: at every copy point of every history, the copy shows what the original shows
+under every subsequent operation sequence -/
+def copy_equal_statement : Prop :=
+  ∀ (P : Prim) (ops₀ ops : List Op), obs P (run P (copy (run P {} ops₀)) ops) = obs P (run P (run P {} ops₀) ops)
+
+/-- **Counterexample (known finding F-C10d, replayed on the real code: corpus/C10/resurrected-balance.replay).**
+`a` is funded, self-destructs, is credited 7 in the same transaction, the state is committed.  The deleted object stays
+in the live cache with balance 7; `CreateAccount(a)` on the live object carries the 7 over, on a `Copy()` (which does not
+take clean deleted objects along) the new account has balance 0. -/
+theorem copy_equal_counterexample : ¬ copy_equal_statement := by
+  intro h
+  have := congrArg Obs.accts (h ⟨fun _ => [0], fun _ => [1]⟩
+    [.setBalance [1] 5, .finalise true, .suicide [1], .addBalance [1] 7, .commit true] [.createContract [1]])
+  revert this
+  decide
+
+/-- no deleted object in the live cache holds a non-zero balance (true as long as nothing is credited to an account
+after it self-destructed in the same transaction) -/
+def NoResidue (s : St) : Prop := ∀ a o, aget s.accts a = some o → o.deleted = true → o.balance = 0
+
+/-- the balance `CreateAccount(a)` would carry over -/
+def carried (P : Prim) (s : St) (a : Bytes) : Nat := match rawAcct P s a with | some o => o.balance | none => 0
+
+/-- the guarded clause (NOT proved as a whole): with `NoResidue` at the copy point and along the continuation the copy
+shows what the original shows under every subsequent operation sequence.  Proved below: everything at the copy point. -/
+def copy_equal_guarded_statement : Prop :=
+  ∀ (P : Prim) (ops₀ ops : List Op), (∀ pre, pre <+: ops → NoResidue (run P (run P {} ops₀) pre)) →
+    obs P (run P (copy (run P {} ops₀)) ops) = obs P (run P (run P {} ops₀) ops)
+
+/-- **What holds at every copy point of every history**: the copy shows exactly what the original shows (the full
+enumeration), every account getter agrees, it is coherent again (so all flush / reopen theorems apply to it), and — under
+the explicit hypothesis `NoResidue` — also the one hidden quantity a later operation can read, the balance
+`CreateAccount` carries over, agrees.  (Independence from the original is value semantics in the model; aliasing in the
+real `Copy` is observed by the harness only.) -/
+theorem copy_equal_partial (P : Prim) (ops₀ : List Op) :
+    let s := run P {} ops₀
+    obs P (copy s) = obs P s ∧ (∀ a, getAcct P (copy s) a = getAcct P s a) ∧ InvA P (copy s) ∧
+    (NoResidue s → ∀ a, carried P (copy s) a = carried P s a) := by
+  intro s
+  have hA : InvA P s := InvA_run P ops₀ (InvA_empty P)
+  have hraw : ∀ a, rawAcct P (copy s) a = if dropKey s a = true then none else rawAcct P s a := by
+    intro a
+    unfold rawAcct
+    rw [copy_get]
+    by_cases hd : dropKey s a = true
+    · obtain ⟨o, h1, h2, h3, h4, _⟩ := dropKey_spec hd
+      have hl := hA.a1 a o h1 h3 h4
+      simp only [acctLeaf, h2, if_true] at hl
+      have e1 : (copy s).t = s.t := rfl
+      simp [hd, e1, hl]
+    · have e1 : (copy s).t = s.t := rfl
+      have e2 : (copy s).db = s.db := rfl
+      simp [hd, e1, e2]
+  have hget : ∀ a, getAcct P (copy s) a = getAcct P s a := by
+    intro a
+    unfold getAcct
+    rw [hraw]
+    by_cases hd : dropKey s a = true
+    · obtain ⟨o, h1, h2, _⟩ := dropKey_spec hd
+      simp [hd, rawAcct, h1, h2]
+    · simp [hd]
+  refine ⟨?_, hget, InvA_copy hA, ?_⟩
+  · simp only [obs, Obs.mk.injEq]
+    refine ⟨?_, rfl, rfl, rfl, rfl, rfl⟩
+    have hk : acctKeys (copy s) = acctKeys s := by
+      unfold acctKeys
+      apply sortKeys_ext
+      intro x
+      have e1 : (copy s).t = s.t := rfl
+      rw [e1]
+      simp only [List.mem_append]
+      constructor
+      · rintro (h | h)
+        · obtain ⟨o, ho⟩ := aget_some_of_mem_keys _ _ h
+          rw [copy_get] at ho
+          by_cases hd : dropKey s x = true
+          · rw [if_pos hd] at ho; simp at ho
+          · rw [if_neg hd] at ho
+            rcases hA.a4 x o ho with h' | h' | h'
+            · left
+              have : ∃ o, aget s.accts x = some o := ⟨o, ho⟩
+              exact mem_keys_of_aget _ _ this
+            · left; exact mem_keys_of_aget _ _ ⟨o, ho⟩
+            · exact Or.inr h'
+        · exact Or.inr h
+      · rintro (h | h)
+        · obtain ⟨o, ho⟩ := aget_some_of_mem_keys _ _ h
+          by_cases hd : dropKey s x = true
+          · obtain ⟨o', h1, _, h3, h4, _⟩ := dropKey_spec hd
+            rcases hA.a4 x o' h1 with h' | h' | h'
+            · exact absurd h' h3
+            · exact absurd h' h4
+            · exact Or.inr h'
+          · left
+            apply mem_keys_of_aget
+            exact ⟨o, by rw [copy_get, if_neg hd]; exact ho⟩
+        · exact Or.inr h
+    rw [hk]
+    apply filterMap_congr'
+    intro a _
+    rw [hget a]
+  · intro hn a
+    unfold carried
+    rw [hraw]
+    by_cases hd : dropKey s a = true
+    · obtain ⟨o, h1, h2, _⟩ := dropKey_spec hd
+      simp [hd, rawAcct, h1, hn a o h1 h2]
+    · simp [hd]
+
+/-- test (non-vacuity): `NoResidue` holds of a state with a self-destructed, committed account nobody credited -/
+example : NoResidue (run ⟨fun _ => [0], fun _ => [1]⟩ {} [.setBalance [1] 5, .finalise true, .suicide [1], .commit true]) := by
+  intro a o h hd
+  by_cases ha : a = [1]
+  · subst ha
+    have : aget (run ⟨fun _ => [0], fun _ => [1]⟩ {} [.setBalance [1] 5, .finalise true, .suicide [1], .commit true]).accts [1]
+        = some { balance := 0, suicided := true, deleted := true } := by decide
+    rw [this] at h; simp at h; rw [← h]
+  · have : aget (run ⟨fun _ => [0], fun _ => [1]⟩ {} [.setBalance [1] 5, .finalise true, .suicide [1], .commit true]).accts a = none := by
+      have e : (run ⟨fun _ => [0], fun _ => [1]⟩ {} [.setBalance [1] 5, .finalise true, .suicide [1], .commit true]).accts
+          = [([1], { balance := 0, suicided := true, deleted := true }), ([1], { balance := 0, suicided := true }),
+             ([1], { balance := 5 })] := by decide
+      rw [e]
+      have ha' : ¬ ([1] : Bytes) = a := fun e => ha e.symm
+      simp [aget, ha']
+    rw [this] at h; simp at h
 
 end YouVerif.C10
